@@ -2,7 +2,13 @@ from common import COMMON_TB
 
 CONFIG = {
     "lean_modules": ["SA.Props.C05"],
-    "level_text": "Host forms outside host:port with a plain host: C05_auth_sound_any_host (for EVERY authority string, every "
+    "level_text": "Trust anchors: C05_pools_exactly_configured (in every configuration that loads - plain, client, server - RootCAs and "
+                  "ClientCAs list precisely the configured CA certificates, nil when none is configured), C05_auth_sound_configured_anchor / "
+                  "C05_auth_sound_server_configured_anchor (for every oracle whose chains end in one certificate of the pool given: a verified "
+                  "session / an admitted client means the peer chains to ONE OF THE CONFIGURED CA certificates - never a system root, a cached or "
+                  "process-wide pool, another object's CA), C05_ca_pool_shape (regenerated: the pool is a function-local x509.NewCertPool() fed only "
+                  "by m.GetCaCertificates()), witness C05_witness_seeded_pool_accepts_foreign. "
+                  "Host forms outside host:port with a plain host: C05_auth_sound_any_host (for EVERY authority string, every "
                   "verifying kind: established and not insecure => the name the kind derives is non-empty and the certificate "
                   "chains, is valid and matches it), C05_port_only_refused (tcp://:9000, udp://:9000, ws://:8080, wss, tcp+tls: "
                   "no name, no verified session, for every oracle), C05_host_form_names (the derived names and the reference "
@@ -15,15 +21,18 @@ CONFIG = {
                   "and is established, exactly as the attempt made alone), proved in Lean for every option set, every "
                   "well-formed host:port, every upstream kind and every x509 oracle, over an executable model of "
                   "cert.go, startTls, the upstream kinds and the UDP key derivation whose decisive shapes (guard "
-                  "polarity, InsecureSkipVerify sites, the inventory of every site that sets a verification-affecting tls.Config field incl. Time / Verify* callbacks, ServerName expressions, pbkdf2 argument lists, whether GetTlsConfig hands out "
+                  "polarity, InsecureSkipVerify sites, the inventory of every site that sets a verification-affecting tls.Config field incl. Time / Verify* callbacks, what the CA pool of addCaCertificates is initialised with and fed from, ServerName expressions, pbkdf2 argument lists, whether GetTlsConfig hands out "
                   "a new *tls.Config per call) are regenerated from the source on every run; the model is tied to the code by comparing every "
                   "field of the real tls.Config on enumerated option classes by an end-to-end certificate "
                   "matrix on the real servers/upstreams, and by multi-attempt histories (real Upstreams fail-over walk, "
                   "connect/disconnect/connect, mixed upstream kinds) through one real cert.ClientConfig.",
     "level_note": "Partial on crypto: crypto/tls and crypto/x509 (chain building, expiry, name matching, the meaning "
                   "of InsecureSkipVerify and ClientAuth) are a universally quantified contract record in the "
-                  "theorems, exercised but not verified by the matrix (9 server certificate classes x 8 client "
-                  "certificate classes from a harness PKI, incl. validity-boundary certificates signed at the moment of use: "
+                  "theorems, exercised but not verified by the matrix (10 server certificate classes x 9 client "
+                  "certificate classes from a harness PKI with three CAs: A and B configurable, S = the ONLY root of the harness process's system trust store "
+                  "(SSL_CERT_FILE/SSL_CERT_DIR set in an init() of the C05 components only, before crypto/x509 loads the roots; checked at start-up), configured nowhere; "
+                  "a peer certified by S is acceptable exactly where no CA is configured (nil pool = crypto/tls's documented fallback to the system store, modelled as such), "
+                  "this also holds for a server with require-client-cert and no CA; chain building ending in one anchor of the pool is a hypothesis (Anchored) of the anchor theorems, incl. validity-boundary certificates signed at the moment of use: "
                   "expired 60 s / 1 s ago, valid only from 120 s on, issued 60 s ago).  Carriers driven end to end: StartTLS over an in-memory duplex "
                   "and over TCP, TLS socket, stdio+tls, (thorough) StartTLS over UDP/kcp, HTTPS websocket, StartTLS "
                   "over websocket; the DNS carrier is covered only through the shared code (same ClientConfig, same "
@@ -42,15 +51,18 @@ CONFIG = {
             "flags, 3 kinds), all pairs key x password, key file x key, CA file x CA, cert file x cert, plus 1500 "
             "(quick) / 20000 (thorough) random combinations, comparing certificate count, both pools by CA identity, "
             "InsecureSkipVerify, ClientAuth, ServerName, the remaining verification knobs (Time, VerifyPeerCertificate, VerifyConnection, "
-            "GetConfigForClient), error class or panic; `startcfg`: the real startTls with a VERIFYING configuration for 80+ host "
+            "GetConfigForClient), error class or panic; monitor: both pools hold exactly the configured CA certificates, by subject and by what "
+            "they verify (leaves issued by A, B and the system CA S against each pool); `cfg2`: two configuration objects (3 kinds x {-, A, B, AB})^2 loaded "
+            "1, 2, 1 in one process, every pool = the CAs of its own object; `startcfg`: the real startTls with a VERIFYING configuration for 80+ host "
             "strings (every host form as host:port / bare / host:, port-only, colons, brackets) - ServerName written, "
             "InsecureSkipVerify afterwards, outcome; the ServerName the real startTls "
             "carries into crypto/tls for 49+ host strings (host:port, IPv6 brackets, malformed); the real "
             "ConnectPacket/StartupPacket with absent / empty / 12 passwords.  authmatrix: per carrier {pipe, tcp, "
             "tcp+tls, stdin+tls (+udp, wss, ws thorough)} x host x server certificate {good, nameonly, wronghost, untrusted, "
-            "expired, exp1m, exp1s, notyet, fresh} x insecure x client certificate {none, good CA, foreign CA, expired, exp1m, exp1s, notyet, fresh} "
+            "expired, exp1m, exp1s, notyet, fresh, sys (system CA S)} x insecure x client certificate {none, good CA, foreign CA, expired, exp1m, exp1s, notyet, fresh, sys} "
             "x require-client-cert (boundary server classes with client {none, good, exp1m}, boundary client classes with server {good, fresh}), full with "
-            "both CAs configured, CA-absent variants sampled 1/4 (quick) or full (thorough); a cell is established "
+            "both CAs configured, CA-absent variants sampled 1/4 (quick) or full (thorough) except the cells with a peer certified by S (always all); anchor block: client / server "
+            "configured with different CAs (A/B, B/A), B/B, B/-, -/B x server certificate {A, B, S} x client certificate {none, A, B, S} x require-client-cert on every carrier; a cell is established "
             "iff 16 bytes make the round trip to a TCP echo target behind a server channel; refused cells must "
             "deliver 0 bytes; host forms (token =<hex of the host part as written in the URL>): port-only, LOCALHOST, [::1], "
             "[0:0:0:0:0:0:0:1], [::ffff:127.0.0.1], 0.0.0.0, user@localhost, user:secret@127.0.0.1, user@ through the real "
@@ -58,21 +70,23 @@ CONFIG = {
             "127.0.0.1, ::1 or every address), port-only / [::1] / LOCALHOST through udp, ws, wss x {good, untrusted} "
             "(thorough: every form without userinfo), all of them plus localhost. LocalHost. server.test. SERVER.TEST "
             "127.0.0.1. ::1 [::1%lo] [fe80::1%eth0] [] through the pipe carrier.  tlshist: histories of 2-6 attempts {pipe, tcp, tcp+tls, stdin+tls (+wss thorough)} x host x "
-            "server {dead, good, nameonly, iponly, wronghost, untrusted, expired, exp1m, exp1s, notyet, fresh} through ONE cert.ClientConfig, as a "
+            "server {dead, good, nameonly, iponly, wronghost, untrusted, expired, exp1m, exp1s, notyet, fresh, sys} through ONE cert.ClientConfig, as a "
             "fail-over walk (one Upstreams.Connect over the list) and as connect/disconnect/connect; every ordered pair "
-            "of 24 (quick) / 52 (thorough) attempt kinds in both modes plus 150 / 1500 random longer histories with "
+            "of 26 (quick) / 57 (thorough) attempt kinds in both modes plus 150 / 1500 random longer histories with "
             "random options; per attempt established|refused|skipped and the ServerName / InsecureSkipVerify of the "
             "config the attempt handed to crypto/tls are compared with the model; monitor = the property per attempt "
             "for THIS upstream's host name; host forms (6 through tcp / tcp+tls, 6 through pipe, x {good, untrusted}) alone, "
             "after stdin+tls, after a dead upstream in a walk, before a plainly named upstream.  non-trivial = the config loaded / the session was established; distinct = distinct op line",
     "trusted_base": COMMON_TB + [
         "model SA.Model.TlsConfig hand-written; tied by per-field comparison with the real tls.Config, per-cell comparison of the matrix and per-attempt comparison of the histories",
-        "go/extract/x_c05.go shape recognition (guard polarity, ServerName derivations, pbkdf2 argument lists, new-object-per-call shape of GetTlsConfig)",
+        "go/extract/x_c05.go shape recognition (guard polarity, ServerName derivations, pbkdf2 argument lists, new-object-per-call shape of GetTlsConfig, provenance of the CA pool in addCaCertificates)",
+        "Go on Linux reads the system roots once per process from SSL_CERT_FILE / SSL_CERT_DIR (the harness checks at start-up that the system pool holds exactly its CA S and refuses to run otherwise); CertPool.Subjects() lists a pool's certificates (backed by a verification probe per pool)",
         "crypto/tls, crypto/x509, net.SplitHostPort, net/url Hostname, pbkdf2, aes, kcp: contract only (hypothesis-level record X509, clientAccepts/serverAdmits, splitHostPort/urlHostname models compared with the real functions through startTls)",
     ],
     "assumptions": [
         "crypto/tls verifies chain, validity and ServerName iff InsecureSkipVerify is false, and demands a client certificate chaining to ClientCAs iff ClientAuth = RequireAndVerifyClientCert",
         "C05_expected_name / C05_auth_sound / C05_auth_complete: upstream addresses are host:port with a non-bracketed non-empty host and numeric port; every other form is covered by C05_auth_sound_any_host (sound for all strings) and by evaluation + correspondence",
+        "crypto/x509 chain building ends in one certificate of the pool it was given (Anchored, hypothesis of the anchor theorems; proved for the reference oracle); a nil RootCAs / ClientCAs means the system store (crypto/tls default)",
         "crypto/tls refuses a verifying handshake without a ServerName (part of the clientAccepts contract, exercised by the port-only cells)",
         "TLS 1.3 between client and server (a StartTLS upstream's Connect returns before the server has judged the client certificate: modelled in the fail-over walk)",
         "the KDF does not collide on the two passwords compared (C05_udp_admits_same_secret)",
